@@ -6545,6 +6545,10 @@ fn eval_expr(
                 // No more expressions to evaluate in this function, we're returning.
                 let stack_frame = env.current_frame_mut();
                 stack_frame.exprs_to_eval.clear();
+                // We've left every block that we were inside, so
+                // their bindings are gone too. This matters at the
+                // toplevel, where the stack frame lives on.
+                stack_frame.bindings.block_bindings.truncate(1);
             } else {
                 env.push_expr_to_eval(
                     ExpressionState::EvaluatedSubexpressions,
